@@ -192,7 +192,7 @@ enum Ev {
 	Closed,
 }
 
-type WsSender = jsonrpsee_client_transport::ws::Sender<tokio_util::compat::Compat<jsonrpsee_client_transport::ws::EitherStream>>;
+type WsSender = jsonrpsee_client_transport::ws::Sender<tokio_util::compat::Compat<tokio::net::TcpStream>>;
 
 struct Conn {
 	sender: Option<WsSender>,
@@ -557,10 +557,17 @@ async fn run_case(cap: u32, nconns: usize, steps: Vec<Step>) -> String {
 		.max_subscriptions_per_connection(cap)
 		.set_id_provider(CountingIds(AtomicU64::new(0)))
 		.build();
-	let server = match timeout(REQ_WAIT, Server::builder().set_config(cfg).build("127.0.0.1:0")).await {
-		Ok(Ok(s)) => s,
-		_ => return r#"{"fatal":"bind"}"#.into(),
-	};
+	let mut server = None;
+	for attempt in 0..5u64 {
+		match timeout(REQ_WAIT, Server::builder().set_config(cfg.clone()).build("127.0.0.1:0")).await {
+			Ok(Ok(s)) => {
+				server = Some(s);
+				break;
+			}
+			_ => sleep(Duration::from_millis(20 * (attempt + 1))).await,
+		}
+	}
+	let Some(server) = server else { return r#"{"fatal":"bind"}"#.into() };
 	let addr = server.local_addr().unwrap();
 	let handle = server.start(module);
 
@@ -580,9 +587,25 @@ async fn run_case(cap: u32, nconns: usize, steps: Vec<Step>) -> String {
 	};
 	for c in 0..nconns {
 		let url = Url::parse(&format!("ws://{}", addr)).unwrap();
-		let (tx, mut rx) = match timeout(REQ_WAIT, WsTransportClientBuilder::default().build(url)).await {
+		// own TCP stream with SO_LINGER 0: dropping the transport resets the connection instead of leaving a
+		// TIME_WAIT socket behind (hundreds of thousands of histories would exhaust the ephemeral ports)
+		let mut stream = None;
+		for attempt in 0..5u64 {
+			match timeout(REQ_WAIT, tokio::net::TcpStream::connect(addr)).await {
+				Ok(Ok(st)) => {
+					stream = Some(st);
+					break;
+				}
+				_ => sleep(Duration::from_millis(20 * (attempt + 1))).await,
+			}
+		}
+		let Some(stream) = stream else { return r#"{"fatal":"connect"}"#.into() };
+		#[allow(deprecated)] // a zero linger never blocks
+		let _ = stream.set_linger(Some(Duration::ZERO));
+		let _ = stream.set_nodelay(true);
+		let (tx, mut rx) = match timeout(REQ_WAIT, WsTransportClientBuilder::default().build_with_stream(url, stream)).await {
 			Ok(Ok(p)) => p,
-			_ => return r#"{"fatal":"connect"}"#.into(),
+			_ => return r#"{"fatal":"handshake"}"#.into(),
 		};
 		let ev = ev_tx.clone();
 		// dedicated reader: `receive()` is not cancel-safe, so it is only ever awaited here, to completion
